@@ -65,7 +65,10 @@ impl<TLocation> NonConstantValueInner<TLocation> {
         match self {
             NonConstantValueInner::Variable(name) => format!("v_{name}"),
             // l for literal, i.e. this is shared with others
-            NonConstantValueInner::Integer(int_value) => format!("l_{int_value}"),
+            // a minus sign cannot appear in a GraphQL alias; `n` stands for it
+            NonConstantValueInner::Integer(int_value) => {
+                format!("l_{int_value}").replace('-', "n")
+            }
             NonConstantValueInner::Boolean(bool) => format!("l_{bool}"),
             NonConstantValueInner::String(string) => format!(
                 "s_{}",
